@@ -277,7 +277,7 @@ def run_C19(ctx):
                         if F.has_free():
                             out["failures"].append({"key": "C19:free", "history": h[:oi + 1], "sym": sym,
                                                     "what": f"{sym}: returned function has free symbols {F.get_free()}"})
-                        for msg in reflects_last_step(W, F) + content_is_latest(h[:oi + 1], sym, ramp, F):
+                        for msg in reflects_last_step(W, F) + content_is_latest(h[:oi + 1], sym, ramp, F) + levels_agree(W, F):
                             out["failures"].append({"key": "C19:stale:" + msg.split(":")[0], "history": h[:oi + 1], "sym": sym,
                                                     "ramp": ramp, "what": f"{sym}, {ramp} ramp: {msg}"})
                     elif r != "RuntimeError":
@@ -358,6 +358,70 @@ def reflects_last_step(W, F):
     return msgs
 
 
+STATE_VARS, ACTION_VARS, DIST_VARS = ("rho", "v", "w"), ("v_ctrl", "r", "q"), ("d",)
+
+
+def levels_agree(W, F):
+    """'reflects the most recent step' at every documented level: the function compiled right now at the aggregated
+    levels 1 and 2 returns, entry for entry, what the per-element function F (level 0) returns - the aggregated vectors
+    being the per-element ones grouped by variable name in order of first appearance"""
+    if F.has_free():
+        return []
+    if F.n_in() == 0 or F.n_out() == 0:
+        return []
+    names_in = [F.name_in(i) for i in range(F.n_in())]
+    sizes_in = [F.size1_in(i) for i in range(F.n_in())]
+    names_out = list(F.name_out())
+    rng = random.Random(len(names_in) * 17 + 3)
+    vals = {n: np.array([rng.uniform(5.0, 60.0) for _ in range(k)]) for n, k in zip(names_in, sizes_in)}
+    r0 = F(*[vals[n] for n in names_in])
+    r0 = r0 if isinstance(r0, (list, tuple)) else [r0]
+    out0 = {n: np.array(x, dtype=float).reshape(-1) for n, x in zip(names_out, r0)}
+
+    def var_of(name):
+        for v in sorted(STATE_VARS + ACTION_VARS + DIST_VARS, key=len, reverse=True):
+            if name.startswith(v + "_"):
+                return v
+        return None
+
+    def grouped(names, table, which):
+        order = []
+        for n in names:
+            v = var_of(n)
+            if v in which and v not in order:
+                order.append(v)
+        return [(v, np.concatenate([table[n] for n in names if var_of(n) == v])) for v in order]
+    msgs = []
+    for level in (1, 2):
+        try:
+            G = W.cs.to_function(W.net, compact=level, T=PARS["T"])
+        except Exception as ex:
+            msgs.append(f"levels: compiling at level {level} raised {ex!r:.120} although level 0 compiles")
+            continue
+        gx, gu, gd = grouped(names_in, vals, STATE_VARS), grouped(names_in, vals, ACTION_VARS), grouped(names_in, vals, DIST_VARS)
+        if level == 1:
+            args = [a for _, a in gx + gu + gd]
+        else:
+            args = [np.concatenate([a for _, a in g]) if g else np.zeros(0) for g in (gx, gu, gd)]
+        if level == 1:
+            args = [a for a in args if len(a)] if G.n_in() != len(args) else args
+        if [G.size1_in(i) for i in range(G.n_in())] != [len(a) for a in args] or not args:
+            msgs.append(f"levels: the level-{level} function takes arguments of sizes {[G.size1_in(i) for i in range(G.n_in())]}, "
+                        f"the grouping of the level-0 arguments gives {[len(a) for a in args]}")
+            continue
+        res = G(*args)
+        res = res if isinstance(res, (list, tuple)) else [res]
+        got = np.concatenate([np.array(x, dtype=float).reshape(-1) for x in res]) if res else np.zeros(0)
+        base = {n[:-1]: x for n, x in out0.items()}
+        exp_groups = grouped([n[:-1] for n in names_out], base, STATE_VARS)
+        exp = np.concatenate([a for _, a in exp_groups]) if exp_groups else np.zeros(0)
+        if got.shape != exp.shape or not np.allclose(got, exp, rtol=1e-9, atol=1e-9, equal_nan=True):
+            msgs.append(f"levels: the level-{level} function returns {got.tolist()}; the level-0 results grouped by variable "
+                        f"({[v for v, _ in exp_groups]}) are {exp.tolist()}")
+            break
+    return msgs
+
+
 def content_is_latest(h, sym, ramp, F):
     """'reflects the most recent step', by value: the same history on new objects whose next states are dropped
     just before every step (so nothing of an earlier step can survive) must compile to the same function"""
@@ -409,7 +473,7 @@ def direct_keys(h, sym, ramp):
                     keys.add("C19:returned:" + must_raise.split(":")[0])
                 if F.has_free():
                     keys.add("C19:free")
-                for msg in reflects_last_step(W, F) + content_is_latest(h[:oi + 1], sym, ramp, F):
+                for msg in reflects_last_step(W, F) + content_is_latest(h[:oi + 1], sym, ramp, F) + levels_agree(W, F):
                     keys.add("C19:stale:" + msg.split(":")[0])
             elif r != "RuntimeError":
                 keys.add("C19:error-class")
